@@ -6,7 +6,9 @@ annotated tag -- the same values Transfer.tla uses (<<"c", 1>> ...).  A universe
   par: list (per commit) of lists of parent commit numbers   (commit i has parents < i)
   tr : list (per commit) of root tree numbers
   ent: list (per tree) of lists of child objects (trees / blobs; gitlinks are not objects)
-  lnk: list (per tree) of bool: the tree also carries a gitlink entry
+  lnk: list (per tree) of int: 0 no gitlink entry; -1 a gitlink naming a commit that is in no
+       repository; k > 0 a gitlink naming commit k of this universe (a branch of the same repository
+       embedded as a submodule).  A gitlink is never an edge of the object graph.
   tg : list (per tag) of target objects
 Everything here is used as *projection / construction* only; nothing in this file decides a verdict.
 """
@@ -37,7 +39,7 @@ class Universe:
         self.par = [sorted(p) for p in par]
         self.tr = list(tr)
         self.ent = [sorted(tuple(o) for o in e) for e in ent]
-        self.lnk = list(lnk) if lnk else [False] * len(self.ent)
+        self.lnk = [(-1 if x is True else 0 if not x else int(x)) for x in lnk] if lnk else [0] * len(self.ent)
         self.tg = [tuple(o) for o in tg]
         self.skew = skew or {}
         self.big = big_blobs
@@ -66,7 +68,8 @@ class Universe:
             else:
                 raise ValueError(o)
         if self.lnk[j - 1]:
-            items.append((b"t%d-sub" % j, b"160000", GITLINK_SHA))
+            k = self.lnk[j - 1]
+            items.append((b"t%d-sub" % j, b"160000", GITLINK_SHA if k < 0 else self.get(("c", k))))
         # git order: directories compare as name + "/"
         items.sort(key=lambda it: it[0] + (b"/" if it[1] == b"40000" else b""))
         return b"".join(mode + b" " + name + b"\0" + bytes.fromhex(sha) for name, mode, sha in items)
@@ -126,7 +129,7 @@ def jobj(o):
 
 def universe_json(u: Universe):
     return {"par": [list(p) for p in u.par], "tr": list(u.tr), "ent": [[jobj(o) for o in e] for e in u.ent],
-            "lnk": [bool(x) for x in u.lnk], "tg": [jobj(o) for o in u.tg]}
+            "lnk": [int(x) for x in u.lnk], "tg": [jobj(o) for o in u.tg]}
 
 
 # --------------------------------------------------------------------------- closure (construction only)
